@@ -248,7 +248,8 @@ BadSpecs(m, S, nvv) ==
                   ConstI(CVec(nvv, 9))),
          DictSpec("onlylast", "none", [k \in DOMAIN S |-> PatItem(m, nvv, "onlylast", k, Len(S))], NoneI),
          ConstSpec(CVec(BadLen(m, nvv), 2)), TypeSpec("str")}
-        \cup (IF nvv > 1 THEN {DictSpec("baddef1", "const", [k \in DOMAIN S |-> IF k = 1 THEN ConstI(CVec(nvv, k)) ELSE NoneI], ConstI(<<9>>))} ELSE {})
+        \cup (IF nvv > 1 THEN {DictSpec("badcomp1", "const", [k \in DOMAIN S |-> IF k = 1 THEN ConstI(<<9>>) ELSE ConstI(CVec(nvv, k))], ConstI(CVec(nvv, 9))),
+                                DictSpec("baddef1", "const", [k \in DOMAIN S |-> IF k = 1 THEN ConstI(CVec(nvv, k)) ELSE NoneI], ConstI(<<9>>))} ELSE {})
 UpdSpecs(m, S, nvv) ==
    IF S = <<>>
    THEN {FuncSpec(FA_a(ND(m), nvv), FA_b(nvv, 0)), ArraySpec(m.n \o <<nvv>>, FALSE, ArrA(m, nvv)),
